@@ -93,6 +93,15 @@ func c06Run(c *core.Ctx) *core.Result {
 	switch viewKind {
 	case "disk", "subdir", "filtered":
 		t := tree.Gen(R, o)
+		// unix sockets: the walk announces them as regular entries (the
+		// socket bit is not carried), so they are requestable; opening one
+		// fails, and the answer is the bare terminator
+		for i := range t.Entries {
+			if e := &t.Entries[i]; e.Type == tree.Fifo && e.LinkTo == "" && t.GroupOf(e.Path) == "" && R.P(1, 2) {
+				e.Type = tree.Sock
+				r.Count("sockets_in_the_view", 1)
+			}
+		}
 		src := filepath.Join(c.Dir, "src")
 		os.Mkdir(src, 0755)
 		if err := tree.Materialise(src, t); err != nil {
@@ -114,6 +123,9 @@ func c06Run(c *core.Ctx) *core.Result {
 		for _, e := range snap.Entries {
 			if e.Type == tree.File {
 				content[e.Path] = e.Data
+			}
+			if e.Type == tree.Sock {
+				content[e.Path] = []byte{}
 			}
 		}
 		if viewKind == "subdir" {
